@@ -19,7 +19,10 @@ STREAM_SPECS = {
     'wide64':     ({'enc_mode': 8, 'logical_processors': 1}, {'kind': 'mix', 'seed': 19}, 5, (192, 64)),
     'k3w144':     ({'enc_mode': 8, 'logical_processors': 1, 'intra_period_length': 3, 'intra_refresh_type': 2}, {'kind': 'moving', 'seed': 20}, 9, (144, 64)),   # sequence header repeated at every key frame
     'ten':        ({'enc_mode': 7, 'encoder_bit_depth': 10, 'logical_processors': 1}, {'kind': 'mix', 'seed': 7}, 5, (64, 64)),
-    'grain':      ({'enc_mode': 8, 'film_grain_denoise_strength': 10, 'logical_processors': 1}, {'kind': 'noise', 'seed': 8}, 5, (64, 64)),
+    'grain':      ({'enc_mode': 8, 'film_grain_denoise_strength': 10, 'logical_processors': 1}, {'kind': 'grainy', 'seed': 8, 'val': 64}, 5, (64, 64)),   # 'grainy' content: the grain estimator finds flat blocks with measurable noise, so apply_grain=1 (white noise gives apply_grain=0)
+    # film-grain parameters inherited from a reference frame (update_parameters=0): the encoder signals that when consecutive pictures have the same estimated grain model (repeated / static pictures)
+    'grain_static': ({'enc_mode': 8, 'film_grain_denoise_strength': 20, 'logical_processors': 1}, {'kind': 'grainy', 'seed': 21, 'static': 1, 'val': 64}, 7, (64, 64)),
+    'grain_hold':   ({'enc_mode': 8, 'film_grain_denoise_strength': 12, 'logical_processors': 1, 'hierarchical_levels': 3}, {'kind': 'grainy', 'seed': 22, 'hold': 3}, 9, (128, 128)),
     'lr_cdef':    ({'enc_mode': 4, 'enable_restoration_filtering': 1, 'cdef_level': 1, 'logical_processors': 2}, {'kind': 'hgrad', 'seed': 9}, 4, (128, 128)),
     'sb128':      ({'enc_mode': 5, 'super_block_size': 128, 'logical_processors': 2}, {'kind': 'moving', 'seed': 10}, 5, (192, 128)),
     'screen':     ({'enc_mode': 6, 'screen_content_mode': 1, 'palette_level': 6, 'intrabc_mode': 1, 'logical_processors': 1}, {'kind': 'text', 'seed': 11}, 4, (128, 64)),
@@ -64,6 +67,11 @@ def cleanup_streams():
 def inline_stream(case):
     """replay files must be self-contained: embed the stream bytes (hex) instead of a path under .build"""
     c = copy.deepcopy(case)
+    if c.get('instances'):
+        c['instances'] = [inline_stream(i) if i.get('kind') == 'dec' and 'stream_hex' not in i else i for i in c['instances']]
+        return c
+    if 'stream' not in c or 'stream_hex' in c:
+        return c
     try:
         with open(c['stream'], 'rb') as f:
             c['stream_hex'] = f.read().hex()
@@ -87,7 +95,7 @@ def check_c08(tier, seed):
                   'is_16bit_pipeline in {0,1}, film grain applied; oracle: same number, order and samples as dav1d; distinct = distinct (stream, decoder configuration)')
     ck.ev.components = DEC_COMPONENTS; ck.ev.assumptions = ['streams come from the SVT encoder only (libaom encoder ABI not probed)', 'dav1d 1.0.0 via hand-declared ABI']
     core.build('plain'); rng = ck.rng
-    names = list(STREAM_SPECS.keys()) if tier != 'quick' else ['base8', 'tiles2x2', 'ten', 'grain', 'lr_cdef', 'sb128', 'screen', 'overlay', 'lowdelay', 'superres']
+    names = list(STREAM_SPECS.keys()) if tier != 'quick' else ['base8', 'tiles2x2', 'ten', 'grain', 'grain_static', 'grain_hold', 'lr_cdef', 'sb128', 'screen', 'overlay', 'lowdelay', 'superres']
     st = make_streams(names, ck)
     cases = []
     for nm, s in st.items():
@@ -414,6 +422,8 @@ def eval_single14x(cases, variant):
     return vs, rs
 
 def _unhex(c):
+    if c.get('instances') and any('stream_hex' in i for i in c['instances']):
+        c = copy.deepcopy(c); c['instances'] = [_unhex(i) for i in c['instances']]; return c
     if 'stream_hex' in c:
         c = copy.deepcopy(c); os.makedirs(STREAM_DIR, exist_ok=True)
         p = os.path.join(STREAM_DIR, 'replay_%s.tu' % hashlib.sha1(c['stream_hex'].encode()).hexdigest()[:12])
@@ -709,41 +719,53 @@ def inst(cfgo, cont, n, wh, delay, tail_delay=0):
 @evaluator('multi17')
 def eval_multi17(cases, variant):
     """cases = [solo_0, solo_1, ..., concurrent]"""
-    rs = pmap(lambda c: run_case(c, variant), cases, variant=variant); vs = []
+    rs = pmap(lambda c: run_case(_unhex(c), variant), cases, variant=variant); vs = []
     conc, cr = cases[-1], rs[-1]
     for v in relabel(single_violations(conc, cr, variant), 'C17', ('TERM', 'CRASH')):
         v.family = cases; vs.append(v)
     if cr.get('outcome') == 'ok':
         for i, (sc, sr) in enumerate(zip(cases[:-1], rs[:-1])):
             if sr.get('outcome') != 'ok': continue
-            ci = cr['instances'][i]
+            ci = (cr['instances'] if 'instances' in cr else [cr])[i]
             if (ci.get('stream_hash'), ci.get('recon_hash')) != (sr.get('stream_hash'), sr.get('recon_hash')):
                 kind, det = diff_detail(sr, ci)
-                vs.append(Violation('C17', 'DIFF', 'instance_output:' + kind, 'instance %d of %d differs from its solo run: %s' % (i, len(cases) - 1, det), conc, variant, family=cases))
+                vs.append(Violation('C17', 'DIFF', 'instance_output:' + kind, 'instance %d of %d (%s) differs from its solo run: %s' % (i, len(cases) - 1, sc.get('world') == 'multi' and 'decoder' or 'encoder', det), conc, variant, family=cases))
     return vs, rs
 
 @check('C17')
 def check_c17(tier, seed):
     ck = Check('C17', tier, seed)
-    ck.ev.rule = ('family = solo run of each encoder instance + the 2-3 instances concurrently in one simulated process (different SB size, bit depth, preset, cpu-flag mask, resolution, thread count), started and torn down at seeded relative decision numbers so that one instance\'s init/deinit_handle lands inside another\'s encode; '
-                  'oracle: each instance\'s packets and recon equal its solo result, no sanitizer report, no deadlock; interference is decided through its consequences only; distinct = distinct (instance set, stagger, decision trace)')
-    ck.ev.components = core.COMPONENTS_ENC; ck.ev.assumptions = ['a race with no observable effect is invisible to a serialising scheduler', 'encoder instances only (decoder instances are covered solo by C08/C09)']
-    variant = 'asan'; core.build(variant); rng = ck.rng
+    ck.ev.rule = ('family = solo run of each instance + the 2-3 instances concurrently in one simulated process: encoder instances (different SB size, bit depth, preset, cpu-flag mask, resolution, thread count) and decoder instances (1-4 threads, different streams/sizes), '
+                  'started and torn down at seeded relative decision numbers so that one instance\'s init/deinit_handle lands inside another\'s encode or decode; enc+enc, enc+dec and dec+dec mixes; '
+                  'oracle: each instance\'s packets and recon (decoder: output pictures) equal its solo result, no sanitizer report, no deadlock; interference is decided through its consequences only; distinct = distinct (instance set, stagger, decision trace)')
+    ck.ev.components = dict(core.COMPONENTS_ENC, real=core.COMPONENTS_ENC['real'] + core.COMPONENTS_DEC['real']); ck.ev.assumptions = ['a race with no observable effect is invisible to a serialising scheduler']
+    variant = 'asan'; core.build(variant); core.build('plain'); rng = ck.rng
     pool = [({'enc_mode': 8, 'logical_processors': 1}, (64, 64)), ({'enc_mode': 8, 'super_block_size': 128, 'logical_processors': 2}, (128, 128)), ({'enc_mode': 7, 'encoder_bit_depth': 10, 'logical_processors': 1}, (64, 64)),
             ({'enc_mode': 6, 'use_cpu_flags': 0x3f, 'logical_processors': 1}, (72, 66)), ({'enc_mode': 8, 'use_cpu_flags': 0, 'logical_processors': 2}, (64, 64)), ({'enc_mode': 5, 'logical_processors': 4}, (96, 64))]
+    st = make_streams(['base8', 'wide64', 'ten', 'tiles1x2'], ck)   # streams the multi-threaded decoder decodes correctly on its own
+    def dec_inst():
+        nm = rng.choice(sorted(st)); s = st[nm]
+        return {'kind': 'dec', 'stream': s['path'], 'w': s['w'], 'h': s['h'], 'bd': s['bd'], 'threads': rng.choice([1, 1, 2, 4]), 'delay': rng.choice([0, 0, 200, 1500, 6000]), '_stream': nm, 'sessions': rng.choice([1, 1, 2])}
     fams = []
-    for k in range(5 if tier == 'quick' else 40):
-        m = rng.choice([2, 2, 3]); picks = rng.sample(pool, m); insts = []
+    nfam = 8 if tier == 'quick' else 48
+    for k in range(nfam):
+        mix = ['ee', 'ed', 'dd', 'ee', 'eed', 'edd', 'ee', 'ed'][k % 8] if st else 'ee'
+        m = len(mix); picks = rng.sample(pool, mix.count('e')); insts = []
         for (cfgo, wh) in picks:
             n = rng.randint(2, 6)
             insts.append(inst(cfgo, {'kind': rng.choice(['mix', 'moving']), 'seed': rng.randint(1, 99)}, n, wh, delay=rng.choice([0, 0, 200, 1500, 4000, 9000]), tail_delay=rng.choice([0, 0, 500, 3000])))
+        for _ in range(mix.count('d')): insts.append(dec_inst())
+        rng.shuffle(insts)
         sim = gen.schedule(rng, horizon=12000, nthreads=80, allow_buggify=False)
-        conc = {'world': 'multi', 'instances': insts, 'sim': sim, 'machine': {'cores': 4, 'sockets': 1}, 'oracles': {'decode': 0, 'parse': 0, 'seg_events': 0}}
+        conc = {'world': 'multi', 'instances': insts, 'sim': sim, 'machine': {'cores': 4, 'sockets': 1}, 'oracles': {'decode': 0, 'parse': 0, 'seg_events': 0}, '_ndec': mix.count('d')}
         solos = []
         for it in insts:
-            s = {'world': 'enc', 'cfg': it['cfg'], 'content': it['content'], 'program': [o for o in it['program'] if o['op'] != 'yield'], 'sim': {'policy': 'np', 'seed': 1}, 'machine': {'cores': 4, 'sockets': 1}, 'oracles': {'decode': 0, 'parse': 0, 'order': 0}}
+            if it.get('kind') == 'dec':
+                s = {'world': 'multi', 'instances': [dict(it, delay=0)], 'sim': {'policy': 'np', 'seed': 1}, 'machine': {'cores': 4, 'sockets': 1}, 'oracles': {'decode': 0, 'parse': 0}}
+            else:
+                s = {'world': 'enc', 'cfg': it['cfg'], 'content': it['content'], 'program': [o for o in it['program'] if o['op'] != 'yield'], 'sim': {'policy': 'np', 'seed': 1}, 'machine': {'cores': 4, 'sockets': 1}, 'oracles': {'decode': 0, 'parse': 0, 'order': 0}}
             solos.append(s)
-        fams.append(solos + [conc])
+        fams.append(solos + [conc]); ck.ev.probe('mix:' + ''.join(sorted(mix)))
     # half of the families run on the fine-grained build: forced preemptions at function boundaries let two instances interleave
     # inside code that contains no synchronisation operation at all (e.g. a kernel working on process-global scratch memory)
     core.build('fine'); fvar = []
@@ -754,16 +776,18 @@ def check_c17(tier, seed):
     rs = pmap(lambda cv: run_case(cv[0], cv[1]), flat, variant=variant); i = 0
     for fam, variant in zip(fams, fvar):
         frs = rs[i:i + len(fam)]; i += len(fam); conc, cr = fam[-1], frs[-1]
+        ifam = [inline_stream(c) for c in fam]
         ck.ev.probe('fine_preemptions', (cr.get('sim') or {}).get('fine_preemptions', 0))
         for c, r in zip(fam, frs): ck.ev.add_run(c, r, _default_key(c, r) if c is not conc else ((r.get('sim') or {}).get('trace_hash') if r.get('outcome') == 'ok' else None))
         ck.ev.probe('instances=%d' % (len(fam) - 1))
         for v in relabel(single_violations(conc, cr, variant), 'C17', ('TERM', 'CRASH')):
-            v.family = fam; ck.add(v, 'multi17')
+            v.family = ifam; v.case = ifam[-1]; ck.add(v, 'multi17')
         if cr.get('outcome') == 'ok':
+            cis = cr['instances'] if 'instances' in cr else [cr]
             for k, (sc, sr) in enumerate(zip(fam[:-1], frs[:-1])):
                 if sr.get('outcome') != 'ok': ck.ev.notes.append('solo run failed: %s' % sr.get('outcome')); continue
-                ci = cr['instances'][k]
+                ci = cis[k]
                 if (ci.get('stream_hash'), ci.get('recon_hash')) != (sr.get('stream_hash'), sr.get('recon_hash')):
                     kind, det = diff_detail(sr, ci)
-                    ck.add(Violation('C17', 'DIFF', 'instance_output:' + kind, 'instance %d of %d differs from its solo run: %s' % (k, len(fam) - 1, det), conc, variant, family=fam), 'multi17')
-    return ck.finish()
+                    ck.add(Violation('C17', 'DIFF', 'instance_output:' + kind, 'instance %d of %d (%s) differs from its solo run: %s' % (k, len(fam) - 1, sc.get('world') == 'multi' and 'decoder' or 'encoder', det), ifam[-1], variant, family=ifam), 'multi17')
+    rc = ck.finish(); cleanup_streams(); return rc
